@@ -1259,7 +1259,7 @@ func (c *Ctx) ioCase(id, desc, enc string, setup, qs []string) {
 }
 
 // ---------------------------------------------------------------- generators
-var ioPoolDefault = []string{"a", "a.b", "a-b", "ab", "B", "b", "a0", "_", "c", "n.txt"}
+var ioPoolDefault = []string{"a", "a.b", "a-b", "ab", "B", "b", "a0", "_", "c", "n.txt", "..rc", "...", "..a"}
 var ioPoolRe = [][2][]string{ // matching, hidden
 	{{"a.txt", "b.txt", "a-b.txt", "B.txt", "ab.txt", "a.b.txt"}, {"a", "h.go"}},
 	{{"a", "b", "ab", "ba", "aab", "bb"}, {"c", "a.b"}},
